@@ -314,7 +314,7 @@ ZERO = ["points2", "lines2", "line_dir2", "points3", "lines3", "line_dir3", "pla
 def ang_case(draw, tier="quick"):
     cfg = draw(st.sampled_from(ANG))
     return {"cfg": cfg, "v": draw(Z.params(9)), "s": [draw(C.scale()) for _ in range(3)], "iso": draw(st.sampled_from([None, None, "rot", "refl"])),
-            "ang": draw(st.integers(-11, 11)), "coll": draw(st.sampled_from([0, 0, 2]))}
+            "ang": draw(st.integers(-11, 11)), "coll": draw(st.sampled_from([0, 0, 2])), "inf3": draw(st.sampled_from([None, None, "b", "c", "both"]))}
 
 
 def arg2(v):
@@ -439,6 +439,17 @@ def run_ang(c):
         e = cos2(b - a, cc - a)
         if cfg == "points3":
             args = [P(a, s[0]), P(b, s[1]), P(cc, s[2])]
+            inf3 = c.get("inf3")
+            if inf3:
+                # the second and/or third point is a direction (a point at infinity): the angle at a between the directions
+                db, dc = (b if inf3 in ("b", "both") else b - a), (cc if inf3 in ("c", "both") else cc - a)
+                if np.linalg.matrix_rank(np.stack([db, dc])) < 2:
+                    raise Skip("parallel")
+                e = cos2(db, dc)
+                if inf3 in ("b", "both"):
+                    args[1] = Point(np.append(b, 0.0) * abs(s[1]))
+                if inf3 in ("c", "both"):
+                    args[2] = Point(np.append(cc, 0.0) * abs(s[2]))
         else:
             args = [Line(P(a), P(b)), Line(P(a), P(cc))]
     else:
@@ -520,7 +531,7 @@ LAWS = [
         "point-line/plane, plane-parallel line/plane, both orders, incident pairs, equal coordinate vectors of different kinds", shard=400),
     Law("dist_polytope", lambda tier: poly_case(tier), run_poly, lambda c: True, lambda c: [c["cfg"]] + (["derived-from-a-used-object"] if c.get("derive") else []), {"quick": 700, "thorough": 12000},
         "point-segment, point-polygon (2D boundary/outside, 3D anywhere), point-cuboid (outside/surface); Segment.length", shard=150),
-    Law("angle", lambda tier: ang_case(tier), run_ang, lambda c: True, lambda c: [c["cfg"]] + ([c["iso"]] if c["iso"] else []) + ([ZERO[c["ang"] % len(ZERO)] + ":zero"] if c["cfg"] == "zero_angle" else []), {"quick": 2000, "thorough": 40000},
+    Law("angle", lambda tier: ang_case(tier), run_ang, lambda c: True, lambda c: [c["cfg"]] + ([c["iso"]] if c["iso"] else []) + ([ZERO[c["ang"] % len(ZERO)] + ":zero"] if c["cfg"] == "zero_angle" else []) + (["directions-in-3-space"] if c["cfg"] == "points3" and c.get("inf3") else []), {"quick": 2000, "thorough": 40000},
         "angle mod pi with README orientation in 2D (antisymmetric, isometry behaviour), cos^2 in 3D / planes; Polygon.angles", shard=400),
     Law("dist_isometry", lambda tier: iso_case(tier), run_iso, lambda c: True, lambda c: [f"{c['kind']}{c['d']}", "refl" if c["refl"] else "rot"], {"quick": 800, "thorough": 15000},
         "dist(t*o, t*q) = dist(o, q) for rotations, translations, reflections", shard=400),
